@@ -462,6 +462,11 @@ impl Dedup {
         Self { window: 0, next: 0 }
     }
 
+    /// Whether no packet has been authenticated yet.
+    pub(super) fn is_empty(&self) -> bool {
+        self.next == 0
+    }
+
     /// Highest packet number authenticated.
     fn highest(&self) -> u64 {
         self.next - 1
